@@ -196,6 +196,11 @@ def copyExpr (s : State) (e : Expr) : Expr :=
 def exprSetWs (chars : String) (copyDefaults : Bool) (_ : Expr) : Expr :=
   { ws := pySet chars, copyDef := copyDefaults }
 
+/-- a composite built over an existing expression (`And.__init__` core.py:4113-4120,
+    `ParseElementEnhance.__init__` core.py:4692-4695): `self.set_whitespace_chars(first.whiteChars,
+    copy_defaults=first.copyDefaultWhiteChars)` — it inherits the child's set, not the current default -/
+def wrapExpr (e : Expr) : Expr := { ws := e.ws, copyDef := e.copyDef }
+
 def modifyNth {α} (f : α → α) : Nat → List α → List α
   | _, [] => []
   | 0, x :: xs => f x :: xs
@@ -219,6 +224,7 @@ inductive Op where
   | newExpr                                           -- build a fresh expression
   | copyExpr (i : Nat)                                -- users[i].copy()
   | exprSetWs (i : Nat) (chars : String) (copyDefaults : Bool)  -- users[i].set_whitespace_chars(...)
+  | wrapExpr (i : Nat)                                -- Group(users[i]) / users[i] + ... (new composite)
   deriving DecidableEq, Repr, Inhabited
 
 def stepOp (cfg : Cfg) (o : Op) (s : State) : State × Option Err :=
@@ -247,6 +253,10 @@ def stepOp (cfg : Cfg) (o : Op) (s : State) : State × Option Err :=
     | some e => ({ s with users := s.users ++ [copyExpr s e] }, none)
     | none => (s, none)
   | .exprSetWs i c cd => ({ s with users := modifyNth (exprSetWs c cd) i s.users }, none)
+  | .wrapExpr i =>
+    match s.users[i]? with
+    | some e => ({ s with users := s.users ++ [wrapExpr e] }, none)
+    | none => (s, none)
 
 /-! ### `reset_pyparsing_context` (testing.py:47-127) -/
 
